@@ -3,6 +3,7 @@ package props
 import (
 	"fmt"
 	"math/rand/v2"
+	"regexp"
 	"strings"
 	"time"
 
@@ -824,6 +825,11 @@ func runC01(c *mon.Ctx) {
 						a.note("dup-id-attr")
 					}
 				}
+			case 3, 4:
+				// text-level: one start tag declares the same prefix (or the default namespace) twice with different
+				// values; parsers disagree on which declaration wins, so what is verified and what is decoded may differ
+				s = dupNSDecl(a.r, s)
+				a.note("dup-ns-decl")
 			case 0:
 				s = "\xef\xbb\xbf" + s
 				a.note("bom")
@@ -842,6 +848,10 @@ func runC01(c *mon.Ctx) {
 	for k := 0; k < nf; k++ {
 		run("tree-fuzz", k, func(a *atk) string {
 			fuzzTree(a)
+			if a.r.IntN(5) == 0 {
+				a.note("dup-ns-decl")
+				return dupNSDecl(a.r, sim.DocString(a.doc))
+			}
 			return sim.DocString(a.doc)
 		})
 	}
@@ -922,4 +932,46 @@ func makeAttack(r *rand.Rand, w *World, k int, opts GenOpts) (*Genuine, string, 
 		return nil, "", "", false
 	}
 	return g, out, strings.Join(a.notes, ",") + " | base: " + g.Desc, true
+}
+
+var nsDeclRe = regexp.MustCompile(` xmlns(:[A-Za-z0-9_.-]+)?="[^"]*"`)
+
+// dupNSDecl repeats one namespace declaration of s on the same start tag with a junk
+// value, before or after the genuine one (half of the time on an Assertion start tag).
+func dupNSDecl(r *rand.Rand, s string) string {
+	all := nsDeclRe.FindAllStringSubmatchIndex(s, -1)
+	if len(all) == 0 {
+		return s
+	}
+	var onAssertion, own [][]int
+	for _, m := range all {
+		lt := strings.LastIndex(s[:m[0]], "<")
+		if lt < 0 {
+			continue
+		}
+		tag := strings.SplitN(s[lt+1:m[0]]+" ", " ", 2)[0]
+		if strings.HasSuffix(tag, "Assertion") {
+			onAssertion = append(onAssertion, m)
+			decl := "xmlns"
+			if i := strings.Index(tag, ":"); i > 0 {
+				decl = "xmlns:" + tag[:i]
+			}
+			if strings.HasPrefix(s[m[0]+1:], decl+"=") {
+				own = append(own, m) // the declaration the Assertion tag itself depends on
+			}
+		}
+	}
+	switch x := r.IntN(6); {
+	case x < 3 && len(own) > 0:
+		all = own
+	case x < 5 && len(onAssertion) > 0:
+		all = onAssertion
+	}
+	m := all[r.IntN(len(all))]
+	name := s[m[0] : strings.Index(s[m[0]:], "=")+m[0]]
+	junk := name + `="` + pick(r, []string{"urn:x-nothing", "urn:oasis:names:tc:SAML:2.0:protocol", "http://www.w3.org/2000/09/xmldsig#", ""}) + `"`
+	if r.IntN(2) == 0 {
+		return s[:m[0]] + junk + s[m[0]:]
+	}
+	return s[:m[1]] + junk + s[m[1]:]
 }
